@@ -217,6 +217,11 @@ def mon_c01_static(spec, ex, p):
                   'applied-%d-times-to-2-variables' % len(ap),
                   f'update {tok} was applied {len(ap)} times to its 2 '
                   f'variables (times {times})')
+            if k < len(R) and rec['ts'] != R[k][1]:
+                V('C01.interval', 'computed-for-another-interval',
+                  f'update {tok} was computed for timestep {rec["ts"]} but '
+                  f'the interval that ends at its application time has '
+                  f'length {R[k][1]}')
             if want is not None and any(t != want for t in times):
                 kind = 'late' if max(times) > want else 'early'
                 V('C01.time', kind,
@@ -274,13 +279,19 @@ def mon_c02_static(spec, ex, p):
         inv = sorted(p.invokes.get(pid, []), key=lambda r: r['n'])
         prev_end = t0
         total = 0
-        for k, rec in enumerate(inv):
+        k = -1
+        for rec in inv:
             ap = p.applies.get((pid, rec['n']), [])
             if not ap:
                 V('C02.pending', 'returned-update-never-applied',
                   f'{pid} update {rec["n"]} never applied')
                 break
             end = ap[0][0]
+            if rec['ts'] == 0 and end == prev_end:
+                # a zero-length interval (zero-length forcing call on a
+                # process that is already up to date): vacuous
+                continue
+            k += 1
             length = end - prev_end
             if rec['ts'] != length:
                 cut = k < len(ref[i]) and ref[i][k][1] != ts
@@ -301,6 +312,10 @@ def mon_c02_static(spec, ex, p):
             total += rec['ts']
             prev_end = end
         else:
+            if k + 1 != len(ref[i]):
+                V('C02.coverage', 'intervals-do-not-cover-elapsed-time',
+                  f'{pid}: {k + 1} non-empty intervals simulated, the '
+                  f'ideal timeline has {len(ref[i])}: {ref[i]}')
             if last_forcing:
                 if total != final - t0:
                     V('C02.sum', 'timesteps-do-not-sum-to-elapsed',
@@ -375,7 +390,7 @@ class NonTermination(Exception):
     pass
 
 
-def lasso_guard(ex, repeats=3, cap=2000):
+def lasso_guard(ex, repeats=3, cap=400):
     """Guard for MonitoredEngine: detect a scheduler loop that makes no
     progress.  Three consecutive iterations with identical clock, identical
     front and no invoke/apply in between prove (deterministic engine, fixed
@@ -409,3 +424,49 @@ def lasso_guard(ex, repeats=3, cap=2000):
             raise NonTermination(
                 f'more than {cap} scheduler iterations in one call', 'cap')
     return guard
+
+
+def mon_c01_rows(spec, ex):
+    """Rows-only C01 monitor (usable when probes run in worker processes
+    and leave no trace): at every emitted time the token variables hold
+    exactly the updates whose ideal interval ended by then."""
+    out = []
+    V = lambda rule, fp, msg: out.append(  # noqa
+        fw.violation(rule, fp, msg, spec))
+    if ex.error:
+        V('C01.crash', crash_fp(ex), f'unexpected {ex.error[2]!r}')
+        return out
+    procs = spec['procs']
+    ref = ideal_timeline(procs, spec['script'], 0)
+    due = {}
+    for i, seq in ref.items():
+        for k, (a, ts) in enumerate(seq):
+            due[(f'p{i}', k)] = a
+    for (T, data, snap) in worlds.history_rows(ex):
+        exp = sorted(t for t, a in due.items() if a <= T)
+        got = data.get('shared', {})
+        toks = sorted(tuple(t) for t in got.get('tok', ()))
+        if toks != exp or got.get('num') != len(exp):
+            kind = 'false-condition-contributed' if any(
+                procs[int(t[0][1:])][1] == 'never' for t in toks) \
+                else 'shared-variable'
+            V('C01.row', kind,
+              f'row t={T}: shared tok={toks} num={got.get("num")} '
+              f'expected {exp} (parallel={spec.get("parallel")})')
+            break
+        for i in range(len(procs)):
+            node = data
+            for key in priv_path(spec, i):
+                node = node.get(key, {}) if isinstance(node, dict) else {}
+            e_i = [t for t in exp if t[0] == f'p{i}']
+            if sorted(tuple(t) for t in node.get('tok', ())) != e_i:
+                V('C01.row', 'private-variable',
+                  f'row t={T}: p{i} private {node} expected {e_i}')
+                return out
+            if e_i and node.get('clk') != sum(
+                    ts for (a, ts) in ref[i] if a <= T):
+                V('C01.interval', 'clock-variable-differs',
+                  f'row t={T}: p{i} clk={node.get("clk")} expected '
+                  f'{sum(ts for (a, ts) in ref[i] if a <= T)}')
+                return out
+    return out
